@@ -1,0 +1,43 @@
+//go:build verif
+
+// Reassembly contracts (C10, C04) for the govc verifier (see /verif/DESIGN.md). Comment-only.
+
+package bpv7
+
+// govc:func (*PayloadBlock).Data property C10
+//@ opt inline true
+//@ assigns nothing
+//@ ensures sameSlice(result, []byte(*pb))
+
+// Merging never panics, for any slice of bundles whatsoever (also unsorted ones, fragments with gaps, duplicates,
+// overlaps, absurd offsets): it returns an error or data.
+// Behaviour "family": if every payload byte of every fragment is the byte of one original payload P at the fragment's
+// offset, then the merged data is a prefix of P - reassembly never returns data that differs from the original.
+// govc:func mergeFragmentPayload property C10 C04
+//@ requires forall k int :: 0 <= k && k < len(bs) ==> blocksNonNil(bs[k])
+//@ ensures err != nil ==> true
+//@ loop 0 invariant 0 <= rangeindex + 1 && 0 <= lastIndex && len(data) == lastIndex @nocase
+//@ case family:
+//@ ghost P []byte
+//@ requires forall k, j, x int :: 0 <= k && k < len(bs) && 0 <= j && j < len(bs[k].CanonicalBlocks) && bs[k].CanonicalBlocks[j].Value.BlockTypeCode() == 1 && 0 <= x && x < len([]byte(*(bs[k].CanonicalBlocks[j].Value.(*PayloadBlock)))) ==> int(bs[k].PrimaryBlock.FragmentOffset) + x < len(P) && []byte(*(bs[k].CanonicalBlocks[j].Value.(*PayloadBlock)))[x] == P[int(bs[k].PrimaryBlock.FragmentOffset) + x]
+//@ ensures err == nil ==> forall x int :: 0 <= x && x < len(data) ==> data[x] == old(P[x]) @thorough
+//@ loop 0 invariant 0 <= rangeindex + 1 && 0 <= lastIndex && len(data) == lastIndex
+//@ loop 0 invariant forall x int :: 0 <= x && x < len(data) ==> data[x] == old(P[x]) @thorough
+//@ loop 0 invariant forall k, j, x int :: 0 <= k && k < len(bs) && 0 <= j && j < len(bs[k].CanonicalBlocks) && bs[k].CanonicalBlocks[j].Value.BlockTypeCode() == 1 && 0 <= x && x < len([]byte(*(bs[k].CanonicalBlocks[j].Value.(*PayloadBlock)))) ==> int(bs[k].PrimaryBlock.FragmentOffset) + x < len(P) && []byte(*(bs[k].CanonicalBlocks[j].Value.(*PayloadBlock)))[x] == old(P[int(bs[k].PrimaryBlock.FragmentOffset) + x]) @thorough
+
+// The gap test: success means the slice is non-empty, consists of fragments only, and the running end mark reached
+// the announced total length; it never panics on any slice of bundles.
+// govc:func prepareReassembly property C10 C04
+//@ requires forall k int :: 0 <= k && k < len(bs) ==> blocksNonNil(bs[k])
+//@ assigns elems(bs)
+//@ ensures result == nil ==> len(bs) >= 1
+//@ ensures result == nil ==> forall k int :: 0 <= k && k < len(bs) ==> (uint64(bs[k].PrimaryBlock.BundleControlFlags) & 0x01) != 0
+//@ ensures forall k int :: 0 <= k && k < len(bs) ==> blocksNonNil(bs[k])
+//@ loop 0 invariant 0 <= rangeindex + 1 && rangeindex + 1 <= len(bs)
+//@ loop 0 invariant forall k int :: 0 <= k && k < len(bs) ==> blocksNonNil(bs[k])
+//@ loop 0 invariant forall k int :: 0 <= k && k < rangeindex + 1 ==> (uint64(bs[k].PrimaryBlock.BundleControlFlags) & 0x01) != 0
+
+// govc:func IsBundleReassemblable property C10 C04
+//@ requires forall k int :: 0 <= k && k < len(bs) ==> blocksNonNil(bs[k])
+//@ assigns elems(bs)
+//@ ensures result ==> len(bs) >= 1
